@@ -331,3 +331,151 @@ Example C13_blocks_nonvacuous :
   block_kinds (bo_with_footnotes true o_plain) [x5b; x5e; x61; x5d; x3a; x20; x62]
   <> block_kinds (bo_with_footnotes false o_plain) [x5b; x5e; x61; x5d; x3a; x20; x62].
 Proof. exact (conj inert_applies footnotes_matter). Qed.
+
+(* ====================================================================== PARSER MODEL, the whole parser
+   Model/Parse.v `parse_document_model o u x` is the whole of parse_document (block phase, inline phase on every leaf,
+   footnote pass, text post-pass), tied end to end to the compiled parser (tools/checks/parse_tie.py, run by
+   tools/checks/c13.py).  `po_with F v o` sets the switch of feature F in the parser's option record.
+   Proofs/InertParse.v (composition), Proofs/InertParseContent.v (leaf contents), Proofs/InertParseFeatures.v. *)
+From V Require Import Model.Parse Model.Html Proofs.InertParse Proofs.InertParseContent Proofs.InertParseFeatures.
+
+(* ---- step 1: the content of every leaf block consists of bytes of the document and of the bytes the block phase
+   inserts: x20 (add_line, partially consumed tab), x0a (line end added to the last line), U+FFFD (NUL); hence a
+   document without the first bytes of F's trigger strings has leaf contents without them.
+   (One Print Assumptions walks the whole parser model: related statements are pinned as one conjunction.) *)
+Theorem C13_leaf_contents :
+  (forall (Q : byte -> bool) o x r p i,
+     (Q x20 = true /\ Q x0a = true /\ forallb Q [xef; xbf; xbd] = true) -> forallb Q x = true ->
+     parse_blocks o x = Ok r -> In (p, i) (bleaves [] (br_root r)) -> forallb Q (bi_content i) = true) /\
+  (forall t o x r p i,
+     beqb x20 t = false -> plain_trigger t -> nob t x -> parse_blocks o x = Ok r ->
+     In (p, i) (bleaves [] (br_root r)) -> nob t (bi_content i)) /\
+  (forall F o x r p i,
+     free_of_heads F x = true -> parse_blocks o x = Ok r -> In (p, i) (bleaves [] (br_root r)) ->
+     free_of_heads F (bi_content i) = true).
+Proof. exact (conj parse_blocks_leaf_contents (conj leaf_contents_nob leaf_free_of_heads)). Qed.
+Print Assumptions C13_leaf_contents.
+
+(* ---- composition.
+   (1) the inline parser as process_inlines calls it (trailing white space trimmed, reference budget threaded);
+   (2) the text post-pass reads autolink, tasklist, relaxed_autolinks, relaxed_tasklist_matching and nothing else;
+   (3) everything after the block phase; (4) the whole parser *)
+Theorem C13_parse_compose :
+  (forall F io u c lo sl refmap maxref rs,
+     free_of_heads F c = true ->
+     run_inlines_gen true (io_with F true io) u c lo sl refmap maxref rs
+     = run_inlines_gen true (io_with F false io) u c lo sl refmap maxref rs) /\
+  (forall a b, post_agree a b -> forall ctx ch, postprocess_block a ctx ch = postprocess_block b ctx ch) /\
+  (forall o1 o2 u root refmap maxref,
+     (forall p i, In (p, i) (bleaves [] root) -> forall rs,
+        run_inlines_gen true (iopts_of o1) u (bi_content i) (map N.of_nat (bi_lo i)) (N.of_nat (bi_sl i)) refmap maxref rs
+        = run_inlines_gen true (iopts_of o2) u (bi_content i) (map N.of_nat (bi_lo i)) (N.of_nat (bi_sl i)) refmap maxref rs) ->
+     (forall t1, inline_phase o2 u root refmap maxref = Ok t1 -> footnote_phase o1 u t1 = footnote_phase o2 u t1) ->
+     post_agree (iopts_of o1) (iopts_of o2) ->
+     after_blocks o1 u root refmap maxref = after_blocks o2 u root refmap maxref) /\
+  (forall o1 o2 u x,
+     okle (parse_blocks (bopts_of o1 u) x) (parse_blocks (bopts_of o2 u) x) ->
+     (forall r, parse_blocks (bopts_of o1 u) x = Ok r ->
+        after_blocks o1 u (br_root r) (br_refmap r) (br_max_ref_size r)
+        = after_blocks o2 u (br_root r) (br_refmap r) (br_max_ref_size r)) ->
+     okle (parse_document_model o1 u x) (parse_document_model o2 u x)).
+Proof. exact (conj run_inlines_gen_inert (conj postprocess_block_ext (conj after_blocks_ext parse_compose_okle))). Qed.
+Print Assumptions C13_parse_compose.
+
+(* post_agree is exactly the agreement on the four switches *)
+Theorem C13_post_agree_fields : forall a b,
+  post_agree a b <->
+  (io_tasklist a = io_tasklist b /\ io_autolink a = io_autolink b /\
+   io_relaxed_tasklist a = io_relaxed_tasklist b /\ io_relaxed_autolinks a = io_relaxed_autolinks b).
+Proof. exact post_agree_fields. Qed.
+Print Assumptions C13_post_agree_fields.
+
+(* ---- the statement for every feature; what is proved, what is refuted, what is open.
+   parse_inert_statement F = forall o u x t, free_of_heads F x = true ->
+        parse_document_model (po_with F true o) u x = Ok t -> parse_document_model (po_with F false o) u x = Ok t.
+   PROVED   strikethrough, subscript, superscript, underline, math_dollars, math_code, wikilinks_title_after_pipe,
+            wikilinks_title_before_pipe, smart (these nine with EQUALITY of the two runs of the whole parser: clause 1),
+            alerts, multiline_block_quotes, table (okle: clause 3; the hyphen alone is enough for table), tagfilter,
+            header_ids (the parser has no such switch; the renderer reads them: not covered by the HTML corollary's
+            fixed renderer record); description_lists only with the tilde excluded as well (last part of clause 3).
+   REFUTED  (C13_parse_refuted, witnesses computed on the model): greentext (known class C13-a), description_lists with
+            the documented trigger only (C13-b), autolink, tasklist, relaxed_tasklist_matching, relaxed_autolinks
+            (C13-f: the text post-pass works on decoded text).
+   OPEN     footnotes (missing: the footnote pass is the identity on the tree -- needs `no FootnoteReference` out of the
+            inline parser when the switch is off), spoiler (missing: block phase, table.rs `row` reads the switch),
+            front_matter_delimiter (missing: block phase).  See Proofs/InertParseFeatures.v parse_inert_open. *)
+Definition C13_parse_full_statement : Prop := parse_inert_full_statement.
+
+Theorem C13_parse_inert :
+  (* 1: the features read by the inline phase only *)
+  (forall F o u x, inline_only F = true -> free_of_heads F x = true ->
+     parse_document_model (po_with F true o) u x = parse_document_model (po_with F false o) u x) /\
+  (* 2: which ones *)
+  (forall F, inline_only F = true <->
+     In F [Strikethrough; Subscript; Superscript; Underline; MathDollars; MathCode; WikilinksAfterPipe;
+           WikilinksBeforePipe; Smart]) /\
+  (* 3: the features read by the block phase only *)
+  ((forall o u x, free_of_heads Alerts x = true ->
+      okle (parse_document_model (po_with Alerts true o) u x) (parse_document_model (po_with Alerts false o) u x)) /\
+   (forall o u x, free_of_heads MultilineBlockQuotes x = true ->
+      okle (parse_document_model (po_with MultilineBlockQuotes true o) u x)
+           (parse_document_model (po_with MultilineBlockQuotes false o) u x)) /\
+   (forall o u x, nob x2d x ->
+      okle (parse_document_model (po_with Table true o) u x) (parse_document_model (po_with Table false o) u x)) /\
+   (forall o u x, free_of_heads DescriptionLists x = true -> nob x7e x ->
+      okle (parse_document_model (po_with DescriptionLists true o) u x)
+           (parse_document_model (po_with DescriptionLists false o) u x))) /\
+  (* 4: in the uniform shape *)
+  (forall F, parse_inert_proved F = true -> parse_inert_statement F).
+Proof.
+  exact (conj (fun F o u x h => parse_inline_feature_inert F h o u x)
+        (conj inline_only_list
+        (conj (conj parse_alerts_inert (conj parse_multiline_block_quotes_inert
+                (conj parse_table_inert_hyphen parse_description_lists_inert)))
+              parse_inert_partial))).
+Qed.
+Print Assumptions C13_parse_inert.
+
+Theorem C13_parse_refuted :
+  (forall F, parse_inert_refuted F = true -> ~ parse_inert_statement F) /\
+  ~ C13_parse_full_statement /\
+  (filter parse_inert_proved all_features
+   = [Strikethrough; Tagfilter; Table; Superscript; HeaderIds; MultilineBlockQuotes; Alerts; MathDollars; MathCode;
+      WikilinksAfterPipe; WikilinksBeforePipe; Underline; Subscript; Smart] /\
+   filter parse_inert_refuted all_features
+   = [Autolink; Tasklist; DescriptionLists; Greentext; RelaxedTasklist; RelaxedAutolinks] /\
+   filter parse_inert_open all_features = [Footnotes; FrontMatter; Spoiler]).
+Proof. exact (conj parse_inert_refuted_sound (conj parse_inert_full_refuted parse_inert_status_lists)). Qed.
+Print Assumptions C13_parse_refuted.
+
+(* ---- HTML: `html slug ro t` (Model/Html.v) is a function of the tree and of the renderer's own record ro.  That
+   record has no field for the features of C13_parse_inert except tagfilter / header_ids (read by the renderer: their
+   HTML statement is NOT covered) and the two wikilinks switches / footnotes (fields Model/Html.v never reads).
+   relaxed_autolinks is read by render_link (known class C13-e). *)
+Theorem C13_html_inert :
+  (forall F slug ro o u x,
+     inline_only F = true -> free_of_heads F x = true ->
+     md_html slug ro (po_with F true o) u x = md_html slug ro (po_with F false o) u x) /\
+  (forall F slug ro o u x h,
+     parse_inert_proved F = true -> free_of_heads F x = true ->
+     md_html slug ro (po_with F true o) u x = Ok h -> md_html slug ro (po_with F false o) u x = Ok h).
+Proof. exact (conj html_inert_eq html_inert_partial). Qed.
+Print Assumptions C13_html_inert.
+
+(* non-vacuity: a document with a block quote, emphasis and a list, free of the tilde: both runs give the same tree
+   (ten nodes); with the tilde the switch matters *)
+Example C13_parse_nonvacuous :
+  (free_of_heads Strikethrough strike_doc = true /\
+   exists t, parse_document_model (po_with Strikethrough true po_none) u_id strike_doc = Ok t /\
+             parse_document_model (po_with Strikethrough false po_none) u_id strike_doc = Ok t /\
+             nkinds t = [KDocument; KBlockQuote; KParagraph; KEmph; KText; KText; KList; KItem; KParagraph; KText]) /\
+  (free_of_heads Strikethrough strike_doc_tilde = false /\
+   res_map nkinds (parse_document_model (po_with Strikethrough true po_none) u_id strike_doc_tilde)
+   <> res_map nkinds (parse_document_model (po_with Strikethrough false po_none) u_id strike_doc_tilde)).
+Proof. exact parse_inert_nonvacuous. Qed.
+
+(* the inserted bytes do reach leaf contents (NUL becomes U+FFFD, the last line gets its LF) *)
+Example C13_inserted_bytes_real :
+  exists r, parse_blocks o_plain [x61; x00] = Ok r /\
+            map (fun e => bi_content (snd e)) (bleaves [] (br_root r)) = [[x61; xef; xbf; xbd; x0a]].
+Proof. exact inserted_bytes_real. Qed.
